@@ -4,7 +4,7 @@
 // fake clients of the harness; the oracle only looks at WHICH fake the group
 // hands out (dialer identity, and which fake gets dialled through the group).
 //
-// Parts (race flavour):
+// Parts (race flavour unless noted):
 //
 //	probe   availability / latency / min-max-latency TCP groups: the probe
 //	        service registered by AddClientGroup runs inside a synctest bubble
@@ -14,10 +14,11 @@
 //	        cyclic order single-threaded, exact ticket multiset and porcupine
 //	        linearizability against fetch-and-increment under G x K concurrent
 //	        selections, membership for random.
-//
-// UDP groups with a probing policy are not covered: probe/udp.go opens a real
-// *net.UDPConn through conn.ListenConfig, which cannot be replaced by an
-// in-memory fake (the selection loops are generic and shared with TCP).
+//	udp     (ft flavour, udp.go) availability / latency / min-max-latency UDP
+//	        groups: probe/udp.go opens a real *net.UDPConn through
+//	        conn.ListenConfig, which cannot be replaced by an in-memory fake,
+//	        so the real DNS probes run over loopback sockets to a scripted
+//	        responder on the process-wide virtual clock (smaller set).
 package c19
 
 import (
